@@ -14,7 +14,7 @@ use vstd::std_specs::iter::IteratorSpec;
 verus! {
 
 /// stand-ins (never inspected by the verified text)
-pub struct Repository { pub _opaque: () }
+#[verifier::external_body] pub struct Repository { _o: () }
 pub enum GitAiError { Generic(String) }
 pub type GErr = GitAiError;
 /// stand-in for std::process::Output (only stdout is read)
